@@ -254,7 +254,7 @@ def run(ctx):
             p = [r.gauss(0, 1) for _ in range(n)]
             pn = math.sqrt(sum(x * x for x in p))
             p = [x / pn for x in p]
-            delta = 10.0 ** r.uniform(-6, 2.6)
+            delta = 10.0 ** r.uniform(-6, 3.3)   # beyond exp overflow (delta > 709) as well
             scale = r.choice([1e-3, 1.0, 1e3])
             g = [x * scale for x in g]
             step = delta * (n - 1) / (gn * scale)
